@@ -1166,8 +1166,8 @@ def rule_tywf(ctx):
                 if t2.get("callee_name") == "check" and "types::Ty" in (t2.get("resolved_key") or t2.get("callee_key") or "") and t2["args"]:
                     r2 = op_root(t2["args"][0])
                     for o in (gflow.origins(r2, tuple(place_fields(t2["args"][0]["pl"]))) if r2 is not None else ()):
-                        if o[0] == "arg" and not o[2] and o[1] - 1 < len(t["args"]):
-                            out.append(o[1] - 1)
+                        if o[0] == "arg" and o[1] - 1 < len(t["args"]):
+                            out.append((o[1] - 1, tuple(o[2])) if o[2] else o[1] - 1)     # the parameter itself, or a field of it
             return out
         return []
     n = 0
@@ -1224,12 +1224,15 @@ def rule_tywf(ctx):
                 if bj == bi or not fn.dominates(bj, bi):
                     continue
                 for ai in establishes(t2):
+                    extra = ()
+                    if isinstance(ai, tuple):
+                        ai, extra = ai
                     if ai < 0 or ai >= len(t2["args"]):
                         continue
                     r2 = op_root(t2["args"][ai])
                     if r2 is None:
                         continue
-                    org2 = flow.origins(r2, tuple(place_fields(t2["args"][ai]["pl"])))
+                    org2 = flow.origins(r2, tuple(place_fields(t2["args"][ai]["pl"])) + tuple(extra))
                     if org2 & org:
                         ok = True
             what = ", ".join(sorted("parameter %d%s" % (s[1], "." + ".".join(s[2]) if len(s) > 2 and s[2] else "") if s[0] == "arg" else "an element of parameter %d" % s[1] for s in supplied))
